@@ -99,10 +99,15 @@ def grammar_view(g) -> dict[str, Any]:
     cls = type(g).__name__
     try:
         if cls == "JSONGrammar":
-            props = g.schema.get("properties", {})
+            # (`to_json` rebuilds the schema without touching the lazily built `schema` dict and validator:
+            #  viewing a grammar must not change what it would pickle)
+            import json as _json
+
+            schema = _json.loads(g.to_json())
+            props = schema.get("properties", {})
             for n in g.names:
                 types_[n] = canon(props.get(n, {}))
-            view["schema_required"] = tuple(sorted(g.schema.get("required", [])))
+            view["schema_required"] = tuple(sorted(schema.get("required", [])))
         elif cls in ("SimpleGrammar", "SimplerGrammar"):
             for n in g.names:
                 t = g[n]
@@ -117,11 +122,26 @@ def grammar_view(g) -> dict[str, Any]:
     return view
 
 
+def schema_view(g) -> Any:
+    """The `schema` property of a JSON grammar (reading it builds/refreshes the cached dict: use it only
+    after the object has been serialized)."""
+    if type(g).__name__ != "JSONGrammar":
+        return None
+    s = g.schema
+    return canon({"properties": s.get("properties", {}), "required": sorted(s.get("required", []))})
+
+
 def grammar_probe_data(g, rng) -> list[dict[str, Any]]:
     """A few data dicts to submit to `validate` (valid: the defaults; invalid: missing required, wrong type)."""
-    base = dict(g.defaults)
-    datas = [dict(base)]
+    base = {n: np.array([1.0]) for n in g.names}
+    base.update(g.defaults)
+    datas = [dict(g.defaults), dict(base)]
     names = sorted(g.names)
+    some = names if len(names) <= 6 else sorted(rng.sample(names, 6))
+    for n in some:  # is each name required?  (data complete but for that name)
+        d = dict(base)
+        d.pop(n, None)
+        datas.append(d)
     if names:
         n = names[rng.randrange(len(names))]
         d = dict(base)
